@@ -172,27 +172,62 @@ def module_class(errors):
     return ("other", None, errors[0])
 
 
-def build_until_clean(o, crate, with_runner, what, max_rounds=4):
+def isolate(o, crate, variant, name):
+    """does module (variant, name) still fail when it is compiled alone (with the schemas it
+    imports)?  rustc's error recovery lets a broken module produce errors inside its siblings."""
+    s = crate.by_name.get(name)
+    if s is None:
+        return True, []
+    iso = cc.Crate("crate_iso", crate.schema_dir)
+    iso.remove()
+    iso.by_name = crate.by_name
+    iso.generate(variant, list(schema_closure(crate.by_name, s)))
+    iso.write(False)
+    ok, errs, _ = iso.build()
+    iso.remove()
+    mine = [e for e in errs if e["module"] is None or tuple(e["module"]) == (variant, name)]
+    return (not ok) and bool(mine), mine
+
+
+def build_until_clean(o, crate, with_runner, what, max_rounds=6):
     """build; drop failing modules (and, for the runner, their types) and rebuild until the rest
-    compiles.  Returns {(variant, schema): [errors]} of everything that failed."""
+    compiles.  Modules failing for a known reason (classes a-e) are dropped first: their errors
+    can cascade into sibling modules.  A module failing for another reason is confirmed by
+    compiling it alone.  Returns {(variant, schema): [errors]} of everything that failed."""
     failed = {}
     total_dt = 0.0
+    cascades = 0
     for rnd in range(max_rounds):
         crate.write(with_runner)
         ok, errs, dt = crate.build()
         total_dt += dt
         if ok:
+            crate.cascades = cascades
             return failed, True, total_dt
         by_mod, loose = group_errors(errs)
         if not by_mod:
             o.obligation_broken("cargo build of the %s corpus crate: errors not attributable to a schema" % what,
                                 "\n".join(e["rendered"] for e in loose[:5]))
             return failed, False, total_dt
-        for (variant, name), es in by_mod.items():
+        known = {m: es for m, es in by_mod.items() if module_class(es)[0] != "other"}
+        if known:
+            drop = known
+        else:
+            drop = {}
+            for (variant, name), es in by_mod.items():
+                still, mine = isolate(o, crate, variant, name)
+                if still:
+                    drop[(variant, name)] = mine or es
+                else:
+                    cascades += 1
+            if not drop:
+                # every error was a cascade of something not attributable: give up on these modules
+                drop = by_mod
+        for (variant, name), es in drop.items():
             failed.setdefault((variant, name), []).extend(es)
             if name in crate.modules.get(variant, []):
                 crate.modules[variant].remove(name)
-        # a schema that fails in one variant leaves the runner; importers of a removed module go too
+        # importers of a removed module go too
         changed = True
         while changed:
             changed = False
